@@ -1002,7 +1002,7 @@ def run(ctx):
 
     # expressions of the property's grammar, as token lists (rendered text in "xp")
     rng = ctx.rng("grammar")
-    qcases = [gen_grammar_case(rng, maxdepth) for _ in range(n // 2)]
+    qcases = [gen_grammar_case(rng, maxdepth) for _ in range(n // 3)]
     qcases = [c for c in qcases if wf_expr(c["toks"])]
     for d in corner_docs:
         for toks in ([["**", 1, None], None], [["**", None, ["=", "x"]], None, None], [["a", None, None], None, ["b", "*", None]],
@@ -1050,7 +1050,7 @@ def run(ctx):
     ctx.evaluate("conditions_exact", scases + fcases, ev_conditions_exact, nontrivial=lambda c: parse_simple(c["xp"]) is not None and nt(c))
     ctx.evaluate("findfirst", fcases + scases + qcases, ev_findfirst, in_known=ik_d, nontrivial=nt)
     ctx.evaluate("in_iff", fcases + scases + qcases, ev_in_iff, in_known=ik_a, nontrivial=nt)
-    ctx.evaluate("get_attrib_positional", docs_only, ev_get_attrib_positional, in_known=ik_c, nontrivial=lambda c: nt(c) and has_attrib(c["doc"]))
+    ctx.evaluate("get_attrib_positional", docs_only[::2], ev_get_attrib_positional, in_known=ik_c, nontrivial=lambda c: nt(c) and has_attrib(c["doc"]))
     ctx.evaluate("parse_render", qcases, ev_parse_render, nontrivial=nt)
 
     # ---- distribution -------------------------------------------------------
